@@ -11,7 +11,8 @@
 (***************************************************************************)
 EXTENDS Naturals, Integers, Sequences, FiniteSets, TLC
 
-CONSTANTS Names, AddrsOf,   \* AddrsOf[n]: the addresses name n can be mapped to (disjoint per name)
+CONSTANTS Names, AddrsOf,   \* AddrsOf[n]: the addresses name n can be mapped to; two names may share an address (two names
+                            \* of one host): its key then belongs to the name mapped to it last, and goes when that one goes
           Offsets,          \* expiry offsets relative to now, in ticks (negative = already past)
           MaxNow            \* bound on the clock (model checking only)
 
